@@ -251,6 +251,24 @@ func unfoldAlias(c *simkit.Choices, x *simkit.Ctx) *simkit.Violation {
 			Detail: fmt.Sprintf("document %d is unfolded without error from an immutable whole buffer but fails in the hostile environment: %v", failedDoc, runErr), Scenario: sc}
 	}
 	st.ProbeN("gc-at-event-boundary", gcCount)
+	for range docs {
+		switch sc.Entry {
+		case "write":
+			st.Fault("chunk-buffer-scribbled-after-write")
+		case "parse", "reader", "decoder-bytes":
+			st.Fault("input-scribbled-after-call")
+		case "decoder-reader":
+			st.Fault("reader-buffer-reused")
+		default:
+			st.Fault("parser-internal-buffer-reused")
+		}
+	}
+	if gcCount > 0 {
+		st.Fault("gc-injected")
+	}
+	if len(docs) > 1 {
+		st.Fault("same-parser-and-unfolder-reused")
+	}
 	for i, k := range keep {
 		now := k.get()
 		x.ObserveStr(model.Render(now))
